@@ -107,9 +107,11 @@ SStart ==
     /\ UNCHANGED <<begun, creturned, started2, hret, hret2, c2s, s2c>>
     /\ Step("s", "start", 0, "req")
 
-\* a streaming handler asks for the request message
+\* a streaming handler asks for the request message; it is valid until the handler's first Receive (rpc.ServerChannel),
+\* so the script asks before receiving anything
 SRequest ==
     /\ started /\ Streaming /\ hret = "none" /\ ~\E k \in DOMAIN script : script[k].op = "request"
+    /\ c2s.got = 0 /\ ~c2s.endSeen
     /\ UNCHANGED <<begun, creturned, started, started2, hret, hret2, c2s, s2c>>
     /\ Step("s", "request", 0, "req")
 
